@@ -101,6 +101,32 @@ def inline_crate(j):
     stats = {'inlined': 0, 'dropped': [], 'sites': [], 'renamed': renamed}
     uninlined_calls = set()
 
+    # new functions that are (mutually) recursive stay functions: splicing them multiplies their bodies
+    unk_calls = {}
+    for f_ in j['fns']:
+        if f_['name'] in kn or f_.get('kind') == 'Closure':
+            continue
+        outs = set()
+        for g_ in j['fns']:
+            if g_['name'] == f_['name'] or g_['name'].startswith(f_['name'] + '::{closure'):
+                for b_ in g_['blocks']:
+                    t_ = b_['term']
+                    if t_['t'] == 'call' and t_['callee'].get('local') and (t_['callee'].get('path') or '') in by_name and (t_['callee'].get('path') or '') not in kn:
+                        outs.add(t_['callee']['path'])
+        unk_calls[f_['name']] = outs
+    recursive = set()
+    for n_ in unk_calls:
+        seen_, todo_ = set(), list(unk_calls[n_])
+        while todo_:
+            x_ = todo_.pop()
+            if x_ == n_:
+                recursive.add(n_)
+                break
+            if x_ in seen_:
+                continue
+            seen_.add(x_)
+            todo_.extend(unk_calls.get(x_, ()))
+
     def target_of(caller, t):
         c = t['callee']
         if (c.get('def') or '') == 'std::convert::Into::into' and len(c.get('args') or []) == 2:
@@ -129,7 +155,7 @@ def inline_crate(j):
             if _is_closure_call(c) and path.startswith(top + '::{closure') and path != caller['name']:
                 return g, 'closure'
             return None, None
-        if path in kn:
+        if path in kn or path in recursive:
             return None, None
         return g, 'fn'
 
@@ -341,9 +367,12 @@ def _alias_renamed(j, kn):
         if sig is None:
             continue
         cands = [u for u in unknown if par(u) == par(m) and u not in taken and names[u].get('sig') == sig]
-        if not cands:
-            cands = [u for u in unknown if related(u, m) and u not in taken and names[u].get('sig') == sig]
-        pick = best(m, cands)
+        if len(cands) == 1:
+            pick = cands[0]      # same impl / module, same signature, the only one: a rename (whatever its body became)
+        else:
+            if not cands:
+                cands = [u for u in unknown if related(u, m) and u not in taken and names[u].get('sig') == sig]
+            pick = best(m, cands)
         if pick is not None:
             pairs.append((pick, m))
             taken.add(pick)
